@@ -987,6 +987,9 @@ func (g *G) Steps(label string, maxSteps int) []Step {
 		if g.set.DefaultCtx {
 			kinds = append(kinds, "updatedefault")
 		}
+		if parent >= 0 && g.cfg.Tree && !g.cfg.NoHooks {
+			kinds = append(kinds, "rehook")
+		}
 		k := rapid.SampledFrom(kinds).Draw(t, label+".sk")
 		if forced != "" {
 			k = forced
@@ -1029,7 +1032,7 @@ func (g *G) Steps(label string, maxSteps int) []Step {
 			if len(st.Ops) > 1 && st.Ops[0].V.T == "reset" && rapid.IntRange(0, 3).Draw(t, label+".resetonly") == 0 {
 				st.Ops = st.Ops[:1] // Reset and nothing after it: the logger ends up without any context field
 			}
-		case "hook":
+		case "hook", "rehook":
 			nh := rapid.IntRange(1, 3).Draw(t, label+".nh")
 			if forced != "" {
 				nh = 1
@@ -1062,8 +1065,11 @@ func (g *G) Steps(label string, maxSteps int) []Step {
 			st.Sampler = rapid.SampledFrom([]string{"all", "all", "all", "basic", "basic", "none", "nil", "nil"}).Draw(t, label+".smp")
 			st.N = uint32(rapid.IntRange(1, 2).Draw(t, label+".smpn"))
 		}
-		if k == "update" {
+		if InPlace(k) {
 			alias[i] = parent
+			if k == "rehook" {
+				canUpdate[resolve(parent)] = false // the variable now holds a Hook() child: its context array is shared with the old value
+			}
 		} else {
 			// a child made by With() or Output() copies the context; Level/Sample/Hook children
 			// share the parent's backing array but never append to it (they are not updatable), so the
